@@ -1,5 +1,22 @@
 ID = "C05"
 LEVEL = "proof"
+TITLE = "Accept / reject / store decisions follow the configured policy exactly"
+LEVEL_TEXT = ("Coq theorems over the policy model (Model/Policy.v: ShouldAcceptDomain, ShouldStoreDomain, ShouldAcceptOriginDomain, config.Process's "
+              "lower-casing, MatchWithWildcards as the row-by-row DP exactly as coded), for every configuration and every domain: accept_domain_rule / "
+              "store_rule (iff with the documented sentence, membership up to letter case), wildcard_correct (the DP = the glob relation for every "
+              "pattern and every string without '*', induction over the DP rows; wildcard_star_in_input_refuted is the witness that the side "
+              "condition is needed), validated_domain_has_no_star (every domain that passed ValidateDomainPart meets it), origin_rule_validated "
+              "(a sender is refused exactly when its domain matches a reject-origin pattern - no side condition left), case_blind; at session level, "
+              "for every dialogue: rcpt_250_iff and mail_250_iff (a command is answered 250 exactly when syntax, parse, SIZE range, hook answer and "
+              "the policy rule say so), accept_rule / bytes_accept_rule / net_accept_rule (on every transcript, byte stream and scripted connection the "
+              "250/550 answers agree with the policy wherever no extension decided), recipients_bounded; tied to the code by predicate-level "
+              "differential runs through the real config.Process and by whole sessions (plain, every hook deferring, assembled server)")
+LEVEL_NOTE = ("Coq kernel; extraction; net.ParseIP is an oracle (validated_domain_has_no_star uses of it only that it accepts no string holding '*'); "
+              "strings are bytes: Go's rune conversion in MatchWithWildcards and Unicode ToLower are not modelled (validated domains are ASCII; the "
+              "two Unicode folds are exercised by the C04 streams); load_is_lowercasing restates the model's definition of config.Process and is "
+              "validated by the pol stream, not proved of the Go code")
+DESIGN_REF = "DESIGN.md §4 C05"
+NOT_PROVED = []
 RULE = ("wild: random patterns/inputs over a 5-symbol alphabet plus patterns derived from generated domains; "
         "pol: random switch/list configurations loaded through the real config.Process, domains drawn mostly from the lists' pool "
         "with random case flips. distinct = distinct input line; non-trivial = (wild) pattern holds a wildcard and both strings are "
